@@ -86,9 +86,32 @@ def handleDist (j : Json) : Json :=
       ("conecos", fjs (ps.map fun (p, q) => coneCos fl (toM3 p) (toM3 q)))]
   | _, _ => err "bad-args"
 
+/-- `compare_rotations` for a list of `rotation_type` values (JSON null = keyword omitted → the anchored default) -/
+def handleCompare (j : Json) : Json :=
+  match rows? j "a" >>= (·.mapM quatOfEuler), rows? j "b" >>= (·.mapM quatOfEuler), flist? j "p1", flist? j "p2", getArr? j "types" with
+  | some qa, some qb, some p1, some p2, some ts =>
+    let prims : List (Prims Float) := ((qa.zip qb).zip (p1.zip p2)).map fun ((p, q), (f1, f2)) =>
+      { ang := angDist fl p q, cone := coneDist fl (toM3 p) (toM3 q), inp := inplane tolFloat f1 f2 }
+    Json.arr (ts.toList.map fun t =>
+      let ty := match t with
+        | Json.str s => s
+        | _ => Gen.C06.rotationTypeDefault
+      match prims.mapM (compareRotations Gen.C06.compareBranches ty) with
+      | some rows => Json.arr (rows.map fjs).toArray
+      | none => Json.null).toArray
+  | _, _, _, _, _ => err "bad-args"
+
 def handle (j : Json) : Json :=
   match getStr? j "op" with
   | some "dist" => handleDist j
+  | some "compare" => handleCompare j
+  | some "distbatch" =>
+    match rows? j "a" >>= (·.mapM quatOfEuler), rows? j "b" >>= (·.mapM quatOfEuler) with
+    | some qa, some qb =>
+      match angDistBatch fl qa qb with
+      | some ds => Json.mkObj [("ang", fjs ds)]
+      | none => Json.mkObj [("ang", Json.null)]
+    | _, _ => err "bad-args"
   | some "inplane" =>
     match flist? j "p1", flist? j "p2" with
     | some p1, some p2 => Json.mkObj [("d", fjs ((p1.zip p2).map fun (a, b) => inplane tolFloat a b))]
@@ -108,7 +131,9 @@ def handle (j : Json) : Json :=
     | some ns =>
       let ang := ns.map (n2eAngles fl)
       let z (cs : Float × Float × Float × Float) : V3 Float := zaxisOfEuler 1 0 cs.1 cs.2.1 cs.2.2.1 cs.2.2.2
+      let order := (getStr? j "order").getD Gen.C06.outputOrderDefault
       Json.mkObj [("theta", fjs (ang.map (·.1))), ("psi", fjs (ang.map (·.2))),
+                  ("cols", Json.arr ((n2eColumns Gen.C06.n2eOrders order).map Json.str).toArray),
                   ("z", Json.arr (ns.map fun n => v3j (z (n2eCS fl n))).toArray),
                   ("z_asis", Json.arr (ns.map fun n => v3j (z (n2eCSAsIs fl n))).toArray)]
     | none => err "bad-args"
